@@ -260,7 +260,12 @@ func filterForms(opcode string, forms []InstructionForm, operands ng_operand.Ope
 	}
 
 	// 3. 条件緩和検索: sreg を r16 として扱う
-	//    (例: MOV r/m16, Sreg (Opcode 8C) のような命令に対応するため)
+	//    PUSH/POP Sreg のサイズ見積もりだけがこれに頼っている (エンコードは handlePUSH/handlePOP が行う)。
+	//    他の命令で緩和すると、NOT DS が NOT BX、ADD DS,AX が ADD BX,AX として黙ってエンコードされてしまう
+	//    (MOV の Sreg 形式は fallback テーブルに明示的に定義されている)。
+	if up := strings.ToUpper(opcode); up != "PUSH" && up != "POP" {
+		return nil
+	}
 	relaxedForms := lo.Filter(forms, func(form InstructionForm, _ int) bool {
 		if form.Operands == nil {
 			return false
